@@ -170,12 +170,56 @@ class CounterInterp:
             m = hi.min_for(st.cmin)
             if m is not None and m >= lo.b:
                 return hi
-            if hi.a >= 0:
+            if hi.a > 0:
                 # split needed: below/above the clamp; we handle the common
                 # shape max(0, c + k) by case split on c
-                raise _Split(hi, lo.b)
+                import math
+                raise _Split(math.ceil((Fraction(lo.b) - hi.b) / hi.a))
             return None
+        if isinstance(e, ast.IfExp):
+            dec = self.decide(e.test, st, g)
+            if dec is None:
+                return None
+            return self.eval_int(e.body if dec else e.orelse, st, g)
         return None
+
+    def decide(self, t: ast.AST, st: State, g: CFG) -> Optional[bool]:
+        """Truth of a linear comparison for all admissible c, or a case split."""
+        import math
+        if not (isinstance(t, ast.Compare) and len(t.ops) == 1):
+            return None
+        l, r = self.eval_int(t.left, st, g), self.eval_int(t.comparators[0], st, g)
+        if l is None or r is None:
+            return None
+        d = l - r
+        op = t.ops[0]
+
+        def holds(v: Fraction) -> Optional[bool]:
+            if isinstance(op, ast.Gt): return v > 0
+            if isinstance(op, ast.GtE): return v >= 0
+            if isinstance(op, ast.Lt): return v < 0
+            if isinstance(op, ast.LtE): return v <= 0
+            if isinstance(op, ast.Eq): return v == 0
+            if isinstance(op, ast.NotEq): return v != 0
+            return None
+        if st.c_known is not None:
+            return holds(d.at(st.c_known))
+        if d.is_const():
+            return holds(d.b)
+        if isinstance(op, (ast.Eq, ast.NotEq)):
+            root = -d.b / d.a
+            if root.denominator != 1 or root < st.cmin:
+                return holds(Fraction(1))  # never zero for admissible c
+            raise _Split(int(root) + 1)
+        # monotone in c: the predicate flips at most once, at the root of d
+        root = -d.b / d.a
+        flip = math.floor(root) + 1          # first integer strictly beyond the root
+        if root.denominator == 1:
+            # at c == root the value is exactly 0: treat root itself as part of the 'below' cases
+            flip = int(root) + 1
+        if st.cmin >= flip:
+            return holds(d.at(Fraction(st.cmin)))
+        raise _Split(flip)
 
     # -- main ---------------------------------------------------------------
     def run(self, scope: Scope, st: State, depth: int = 0) -> List[Outcome]:
@@ -202,11 +246,10 @@ class CounterInterp:
         try:
             succs = self._transfer(g, node, st, depth)
         except _Split as sp:
-            # case split on c: hi >= k  vs hi < k
-            # hi = a*c+b, a>0: threshold c0 = (k-b)/a
-            thr = (Fraction(sp.k) - sp.hi.b) / sp.hi.a
-            import math
-            c0 = math.ceil(thr)
+            # case split on c: c >= c0 (symbolic)  vs  each concrete c in [cmin, c0)
+            c0 = sp.t
+            if c0 - st.cmin > 64:
+                raise Undecided('case split too wide')
             results = []
             # case 1: c >= c0
             s1 = st.copy()
@@ -502,8 +545,8 @@ class CounterInterp:
 
 
 class _Split(Exception):
-    def __init__(self, hi: Lin, k):
-        self.hi, self.k = hi, k
+    def __init__(self, t: int):
+        self.t = int(t)
 
 
 def _dedup(lst: List[Tuple[Edge, State]]) -> List[Tuple[Edge, State]]:
